@@ -1,9 +1,69 @@
+//! bc — bounded contract replay on the real affinitree crate (DESIGN.md §2.5).
+//! Every sub-command evaluates the executable form of a contract on a finite, stated space of
+//! cases and prints one JSON report as the last stdout line.  Bounded: never counted as proof.
+mod c_pwl;
+mod fm;
+mod gen;
+mod q;
+mod report;
+mod xtree;
+
+use report::{Report, Tier};
+
 fn main() {
-    use affinitree::tree::graph::Tree;
-    let mut t = Tree::<u32, 2>::new();
-    let r = t.add_root(0);
-    let a = t.add_child_node(r, 0, 1).unwrap();
-    let e = t.add_child_node(r, 0, 2);
-    println!("second add at occupied slot: is_err={} len={} reachable={} child0={:?} a={}",
-        e.is_err(), t.len(), t.dfs_iter().count(), t.tree_node(r).unwrap().children[0], a);
+    std::panic::set_hook(Box::new(|_| {}));
+    let args: Vec<String> = std::env::args().skip(1).collect();
+    if args.is_empty() {
+        eprintln!("usage: bc <cmd> [--tier quick|thorough] [--seed N] [--replay JSON-or-case_id]");
+        std::process::exit(2);
+    }
+    let cmd = args[0].clone();
+    let mut tier = Tier::Quick;
+    let mut seed = 0u64;
+    let mut only = None;
+    let mut i = 1;
+    while i < args.len() {
+        match args[i].as_str() {
+            "--tier" => {
+                tier = if args[i + 1] == "thorough" { Tier::Thorough } else { Tier::Quick };
+                i += 1;
+            }
+            "--seed" => {
+                seed = args[i + 1].parse().unwrap_or(0);
+                i += 1;
+            }
+            "--replay" => {
+                // accepts the case descriptor JSON or a bare case_id "cmd:seed:idx"
+                let s = &args[i + 1];
+                let id = match s.find("\"case_id\"") {
+                    Some(p) => {
+                        let rest = &s[p + 9..];
+                        let a = rest.find('"').unwrap();
+                        let b = rest[a + 1..].find('"').unwrap();
+                        rest[a + 1..a + 1 + b].to_string()
+                    }
+                    None => s.clone(),
+                };
+                let parts: Vec<&str> = id.split(':').collect();
+                seed = parts[1].parse().unwrap();
+                only = Some(parts[2].parse().unwrap());
+                i += 1;
+            }
+            _ => {}
+        }
+        i += 1;
+    }
+    let mut rep = Report::new(&cmd, seed, only);
+    match cmd.as_str() {
+        "compose" => c_pwl::compose(&mut rep, tier),
+        "ops" => c_pwl::ops(&mut rep, tier),
+        "prune" => c_pwl::prune(&mut rep, tier),
+        "reduce" => c_pwl::reduce(&mut rep, tier),
+        "histories" => c_pwl::histories(&mut rep, tier),
+        _ => {
+            eprintln!("unknown command {cmd}");
+            std::process::exit(2);
+        }
+    }
+    rep.print();
 }
